@@ -273,7 +273,8 @@ def fuzzy_equal(first: Array, second: Array, rel_tol: ArrayTolerance, abs_tol: A
     thresholds = select_max_values(np.abs(first), np.abs(second))
     thresholds = thresholds * rel_tol
     thresholds = select_max_values(thresholds, abs_tol)
-    return np.less_equal(abs_diff, thresholds)
+    # an infinite deviation is never within tolerance (an infinite value makes the relative threshold infinite, too)
+    return np.less_equal(abs_diff, thresholds) & np.less(abs_diff, np.inf)
 
 
 def _integers_as_floats(input_array: Array) -> Array:
